@@ -533,6 +533,21 @@ theorem table_codec_rt (m : Mem) (t : Table) (hc : t.length < 2 ^ 32) (he : ∀ 
 theorem table_write_footprint (m : Mem) (t : Table) (hl : t.length ≤ maxAllocs) (i : Nat) (hi : headerSize ≤ i) :
     writeAllocs m t i = m i := Aux.writeAllocs_data m t i hl hi
 
+/-- **extent of the header write**: `_write_allocs` changes nothing outside the count field and
+    `[tableBase, tableBase + entrySize·(len + writeTrailingSlots))` — the entry loop and any trailing write included -/
+theorem table_write_extent (m : Mem) (t : Table) (i : Nat)
+    (h1 : i < countOffset ∨ countOffset + countWidth ≤ i)
+    (h2 : i < tableBase ∨ tableBase + entrySize * (t.length + writeTrailingSlots) ≤ i) :
+    writeAllocs m t i = m i := Aux.writeAllocs_outside m t i h1 h2
+
+/-- **header region and data region are disjoint, over the extracted layout constants**: the count field lies before
+    the table, and the table write of a full table (`MAX_ALLOCS` entries plus every trailing slot the source writes)
+    ends at or before `HEADER_SIZE`, where the data region starts -/
+theorem header_data_disjoint :
+    countOffset + countWidth ≤ tableBase ∧
+      tableBase + entrySize * (maxAllocs + writeTrailingSlots) ≤ headerSize :=
+  ⟨Aux.count_before_table, Aux.write_extent_fits⟩
+
 /-- **the table is a function of the header bytes only**: bytes at or above `HEADER_SIZE` never influence `_read_allocs`
     while the count is within `MAX_ALLOCS` -/
 theorem table_read_footprint (m m' : Mem) (h : ∀ i, i < headerSize → m i = m' i) (hc : readCount m ≤ maxAllocs) :
